@@ -245,7 +245,9 @@ func c20Defaults(q *c20Req, remote, remotePort string) [][2]string {
 	return d
 }
 
-func c20EnvTerm(q *c20Req, remote, remotePort string, extraDefaults [][2]string) string {
+// only the vocabulary entries whose name occurs in the format are emitted (a key that does not occur
+// textually in the format can never be looked up; the literals are expensive to parse in Coq)
+func c20EnvTerm(q *c20Req, remote, remotePort string, format string) string {
 	custom := make([][2]string, len(q.Custom))
 	for i, c := range q.Custom {
 		custom[i] = [2]string{"{" + c[0] + "}", c[1]}
@@ -258,7 +260,12 @@ func c20EnvTerm(q *c20Req, remote, remotePort string, extraDefaults [][2]string)
 	if q.HasRec {
 		resp = "(Some " + c20Hdrs(q.RespHdr) + ")"
 	}
-	defs := append(c20Defaults(q, remote, remotePort), extraDefaults...)
+	var defs [][2]string
+	for _, d := range c20Defaults(q, remote, remotePort) {
+		if strings.Contains(format, d[0][1:len(d[0])-1]) {
+			defs = append(defs, d)
+		}
+	}
 	return "{| e_custom := " + c20Pairs(custom) + "; e_reqh := " + c20Hdrs(q.Headers) + "; e_resph := " + resp +
 		"; e_cookies := " + c20Pairs(q.Cookies) + "; e_query := " + c20Pairs(q.Query) + "; e_osenv := " + c20Pairs(c20OSEnv) +
 		"; e_defaults := " + c20Pairs(defs) + "; e_host := " + cStr(q.Host) + "; e_empty := " + cStr(q.Empty) + " |}"
@@ -315,21 +322,19 @@ func c20BuildRequest(q *c20Req) *http.Request {
 
 func c20RunRepl(in *c20In) Result {
 	var out string
-	if c20Hung {
-		return Result{Term: "(CBurst [])", Obs: "skipped: an earlier Replace call did not terminate", Sig: "repl:skipped-after-hang", Class: "repl:skipped-after-hang"}
-	}
 	var p bool
 	var msg string
 	done := c20Watch(5*time.Second, func() { p, msg = c20RunReplImpl(in, &out) })
 	if !done {
-		c20Hung = true
 		return Result{Term: "(CBurst [])", Obs: "Replace did not return within 5 s", Sig: "repl:hang", Class: "repl:hang",
 			Direct: "replacer.Replace did not terminate (5 s watchdog)"}
 	}
 	return c20ReplResult(in, p, msg, out)
 }
 
-var c20Hung bool
+// hangs seen by the parent: the child (with its spinning goroutine) is replaced after each one, and
+// after three the remaining cases of that kind are skipped
+var c20Hangs = map[string]int{}
 
 // c20Watch runs f in a goroutine and reports whether it returned in time.
 func c20Watch(d time.Duration, f func()) bool {
@@ -378,7 +383,7 @@ func c20ReplResult(in *c20In, p bool, msg string, out string) Result {
 		}
 		q2.Headers = append(append([]c20Hdr(nil), q.Headers...), c20Hdr{"Cookie", []string{strings.Join(cs, "; ")}})
 	}
-	term := cApp("CRepl", cStr(in.Fmt), c20EnvTerm(&q2, c20Remote, c20RemotePort, nil), cBool(p), cStr(out))
+	term := cApp("CRepl", cStr(in.Fmt), c20EnvTerm(&q2, c20Remote, c20RemotePort, in.Fmt), cBool(p), cStr(out))
 	simple := c20Simple(in.Fmt)
 	res := Result{Term: term, Obs: map[string]interface{}{"out": out, "panic": msg}, Sig: "repl",
 		Nontrivial: strings.ContainsAny(in.Fmt, "{}"),
@@ -830,7 +835,7 @@ func c20SiteTerm(in *c20In, addr string, o c20SiteObs) string {
 	}
 	return cApp("CSite", cBool(in.Wrap != "gzip"), cBool(in.HasErr), cBool(in.Wrap == "header"), cBool(in.Head), c20DirsTerm(in.Dirs), cStr(in.Path), c20OpsTerm(in.Ops),
 		cZ(int64(in.Ret)), c20Tbl(in.Ret, 500), cZ(int64(o.Status)), cN(uint64(o.Size)), c20LinesTerm(o.Lines),
-		cStr("|"+in.Tail), c20EnvTerm(&q, "127.0.0.1", "", nil), cStrList(tails))
+		cStr("|"+in.Tail), c20EnvTerm(&q, "127.0.0.1", "", in.Tail), cStrList(tails))
 }
 
 func c20RunSite(in *c20In) Result {
@@ -1028,6 +1033,10 @@ func c20Run(in0 interface{}) Result {
 		return Result{Term: "(CBurst [])", Obs: map[string]interface{}{"crash": why, "stderr": tail}, Sig: "crash:" + in.Kind,
 			Class: "crash:" + in.Kind, Direct: "the implementation took the process down or hung: " + why + ": " + strings.TrimSpace(tail)}
 	}
+	if c20Hangs[in.Kind] >= 3 {
+		return Result{Term: "(CBurst [])", Obs: "skipped: three earlier cases of this kind did not terminate", Sig: in.Kind + ":skipped-after-hangs",
+			Class: in.Kind + ":skipped-after-hangs"}
+	}
 	ch, err := c20GetChild()
 	if err != nil {
 		return Result{Term: "(CBurst [])", Sig: "child:start", Class: "child:start", Direct: "cannot start child: " + err.Error()}
@@ -1058,6 +1067,10 @@ func c20Run(in0 interface{}) Result {
 		if err := json.Unmarshal(r.line, &res); err != nil {
 			return crash("bad reply: " + err.Error())
 		}
+		if strings.HasSuffix(res.Sig, ":hang") {
+			c20Hangs[in.Kind]++
+			c20KillChild()
+		}
 		if in.Kind == "end" {
 			ch.in.Close()
 			ch.cmd.Wait()
@@ -1065,6 +1078,7 @@ func c20Run(in0 interface{}) Result {
 		}
 		return res
 	case <-time.After(limit):
+		c20Hangs[in.Kind]++
 		return crash("no reply within " + limit.String())
 	}
 }
